@@ -983,13 +983,20 @@ class TunnelCommunity(Community):
         This method is usually implemented in subclasses of this community.
         """
 
-    def on_data(self, sock_addr: Address, data: bytes, _: int | None) -> None:
+    def on_data(self, sock_addr: Address, data: bytes, via_circuit_id: int | None) -> None:
         """
         Callback for when we receive a DataPayload out of a circuit.
 
         Data is readable only if this handler is (a) an exit node or (b) the one that created the circuit.
         """
         payload, _ = self.serializer.unpack_serializable(DataPayload, data, offset=23)
+
+        if via_circuit_id is not None and via_circuit_id != payload.circuit_id:
+            # A cell always names the circuit it travelled. This message came out of another circuit's data (sent to
+            # that circuit's exit by the outside world) and says nothing about the circuit it names.
+            self.logger.warning("Dropping data for circuit %d that arrived as content of circuit %d",
+                                payload.circuit_id, via_circuit_id)
+            return
 
         # If it's our circuit, the messenger is the candidate assigned to that circuit and the DATA's destination
         # is set to the zero-address then the packet is from the outside world and addressed to us from.
